@@ -16,6 +16,7 @@ import (
 	"encoding/json"
 	"fmt"
 	"math/rand"
+	"net/http"
 	"net/http/httptest"
 	"os"
 	"path/filepath"
@@ -100,9 +101,19 @@ func c13Canon(data []byte) (string, error) {
 }
 
 type c13World struct {
-	dir  string
-	api  *storage.API
-	ucfg *tconfig.Config
+	dir    string
+	api    *storage.API
+	ucfg   *tconfig.Config
+	mergeH http.Handler
+	chartH http.Handler
+}
+
+// the task queue POSTs; a developer's browser GETs: the handlers accept both
+func c13Method(n int) string {
+	if n%3 == 0 {
+		return "GET"
+	}
+	return "POST"
 }
 
 func c13NewWorld(t *testing.T, cfgJSON []byte) (*c13World, error) {
@@ -127,7 +138,10 @@ func c13NewWorld(t *testing.T, cfgJSON []byte) (*c13World, error) {
 	if err := json.Unmarshal(cfgJSON, &uc); err != nil {
 		return nil, err
 	}
-	return &c13World{dir: dir, api: &storage.API{Upload: up, Merge: mg, Chart: ch}, ucfg: tconfig.NewConfig(&uc)}, nil
+	w := &c13World{dir: dir, api: &storage.API{Upload: up, Merge: mg, Chart: ch}, ucfg: tconfig.NewConfig(&uc)}
+	w.mergeH = handleMerge(w.api)
+	w.chartH = handleChart(w.ucfg, w.api)
+	return w, nil
 }
 
 type c13Resp struct {
@@ -245,9 +259,9 @@ func TestVerifC13(t *testing.T) {
 				ever[st.Day][st.Body] = true
 				continue // nothing to observe
 			case "merge":
-				h := handleMerge(w.api)
+				h := w.mergeH // one handler value serves every request, as in the real server
 				r := c13Call(func(rw *httptest.ResponseRecorder) {
-					h.ServeHTTP(rw, httptest.NewRequest("POST", "/merge/?date="+st.Day, nil))
+					h.ServeHTTP(rw, httptest.NewRequest(c13Method(sc.ID+si), "/merge/?date="+st.Day, nil))
 				})
 				rec["code"], rec["resp"], rec["panic"], rec["hang"] = r.code, r.body, r.panic, r.hang
 				dead = r.hang
@@ -315,9 +329,9 @@ func TestVerifC13(t *testing.T) {
 						}
 						return nil
 					})
-					h := handleChart(w.ucfg, w.api)
+					h := w.chartH
 					r := c13Call(func(rw *httptest.ResponseRecorder) {
-						h.ServeHTTP(rw, httptest.NewRequest("POST", "/chart/?"+q, nil))
+						h.ServeHTTP(rw, httptest.NewRequest(c13Method(sc.ID+si+k), "/chart/?"+q, nil))
 					})
 					dead = r.hang
 					written := rt.M{}
